@@ -5,7 +5,7 @@ import json, os, subprocess, sys
 repo = sys.argv[1] if len(sys.argv) > 1 else "/repo"
 env = dict(os.environ, GOFLAGS="-mod=mod", GOPROXY="off", GOSUMDB="off", GOTOOLCHAIN="local")
 base = json.load(open("/root/.vp/BASELINE.json"))
-p = subprocess.run(["go", "test", "-json", "-vet=off", "-count=1", "-timeout", "25m", "./..."], cwd=repo, env=env, capture_output=True, text=True)
+p = subprocess.run(["go", "test", "-json", "-vet=off", "-count=1", "-timeout", "5m", "./..."], cwd=repo, env=env, capture_output=True, text=True)
 res = {}
 for line in p.stdout.splitlines():
     try:
